@@ -450,16 +450,22 @@ func (s *seqRT) ruleStart() (gen AV, st *State, in *Interp, ok bool) {
 		return nil, nil, nil, false
 	}
 	c.ok("SEQ.START", "Start(seq) result", pos, "returns a generator allocated inside Start (fresh per call); seq itself is not run")
-	next, isClo := gobj.Fields[closureField(gobj)].(Closure)
-	if !isClo {
-		c.bad("SEQ.START", "generator.next", pos, "the fresh generator has no resumption closure in its next field")
+	// the first advance, through the iterator's own MoveNext (where the resumption is kept is representation)
+	methods := s.methodsOf(d.T)
+	if methods["MoveNext"] == nil || methods["Result"] == nil {
+		c.bad("SEQ.START", "generator methods", pos, "the value returned by Start has no MoveNext/Result method")
 		return nil, nil, nil, false
 	}
-	// fresh co per Start
-	o2 := in.Apply(st0, next, []AV{Sym{Name: "recv"}})
-	if len(o2) != 1 || o2[0].Panicked {
-		c.bad("SEQ.START", "first advance", pos, "first resumption is not a single path")
+	o2 := in.Run(st0.clone(), methods["MoveNext"], []AV{d.V}, nil)
+	if len(o2) == 0 {
+		c.bad("SEQ.START", "first advance", pos, "first advance has no path")
 		return nil, nil, nil, false
+	}
+	for _, o := range o2 {
+		if o.Panicked {
+			c.bad("SEQ.START", "first advance", pos, "first advance panics before running seq", o.St.TraceStrings()...)
+			return nil, nil, nil, false
+		}
 	}
 	e2 := observable(o2[0].St.Events[len(st0.Events):])
 	good := len(e2) >= 1 && e2[0].Kind == "call" && isSymNamed(e2[0].Callee, "seq") && len(e2[0].Args) == 2
@@ -483,8 +489,9 @@ func (s *seqRT) ruleStart() (gen AV, st *State, in *Interp, ok bool) {
 			allOK = false
 			continue
 		}
-		g := o3[0].St.Obj(d.V)
-		if g == nil || fieldHolding(g, func(v AV) bool { return isSymNamed(v, "resv") }) == "" {
+		// observed through Result(), not through the field it happens to be stored in
+		o4 := in.Run(o3[0].St.clone(), methods["Result"], []AV{d.V}, nil)
+		if len(o4) != 1 || o4[0].Panicked || len(o4[0].Ret) != 1 || !isSymNamed(o4[0].Ret[0], "resv") {
 			allOK = false
 		}
 		for _, e := range observable(o3[0].St.Events[len(o2[0].St.Events):]) {
@@ -493,9 +500,28 @@ func (s *seqRT) ruleStart() (gen AV, st *State, in *Interp, ok bool) {
 			}
 		}
 	}
-	c.check(allOK, "SEQ.START", "final continuation", pos, "stores its value in this generator's result field, for every signal, and calls nothing", "the terminal continuation must record v in the generator's result")
+	c.check(allOK, "SEQ.START", "final continuation", pos, "records its value as this generator's Result(), for every signal, and calls nothing", "the terminal continuation must record v in the generator's result")
 	s.account(in)
 	return it, st0, in, true
+}
+
+// methodsOf: the methods of the named type behind a pointer-typed dynamic value, by name.
+func (s *seqRT) methodsOf(t types.Type) map[string]*ssa.Function {
+	out := map[string]*ssa.Function{}
+	pt, _ := t.(*types.Pointer)
+	if pt == nil {
+		return out
+	}
+	nt, _ := pt.Elem().(*types.Named)
+	if nt == nil {
+		return out
+	}
+	nt = nt.Origin()
+	for i := 0; i < nt.NumMethods(); i++ {
+		m := nt.Method(i)
+		out[m.Name()] = s.w.Prog.FuncValue(m)
+	}
+	return out
 }
 
 // ------------------------------------------------------------------ SEQ.FOR
